@@ -27,8 +27,10 @@ import (
 	"github.com/sboehler/knut/cmd/flags"
 	"github.com/sboehler/knut/cmd/importer"
 	"github.com/sboehler/knut/lib/amounts"
+	"github.com/sboehler/knut/lib/common/compare"
 	"github.com/sboehler/knut/lib/journal"
 	"github.com/sboehler/knut/lib/model"
+	"github.com/sboehler/knut/lib/model/commodity"
 	"github.com/sboehler/knut/lib/model/posting"
 	"github.com/sboehler/knut/lib/model/registry"
 	"github.com/sboehler/knut/lib/model/transaction"
@@ -208,7 +210,16 @@ func (p *parser) parseBooking() error {
 }
 
 func (p *parser) addBalances() {
-	for k, bal := range p.balance {
+	// The assertions of one day are printed in the order in which they are
+	// added: add them in a fixed order, not in map iteration order.
+	keys := p.balance.Index(func(k1, k2 amounts.Key) compare.Order {
+		if o := compare.Time(k1.Date, k2.Date); o != compare.Equal {
+			return o
+		}
+		return commodity.Compare(k1.Commodity, k2.Commodity)
+	})
+	for _, k := range keys {
+		bal := p.balance[k]
 		p.builder.Add(&model.Assertion{
 			Date: k.Date,
 			Balances: []model.Balance{
